@@ -82,8 +82,10 @@ static void prop(Tape &t, Ctx &c) {
     if (early) { c.count("early-data-capable-session"); p.c.sel(); if (matrixSslGetMaxEarlyData(p.c.ssl) > 0 && t.coin()) { p.c.send(amsg(3, 40), 1); c.count("client-sent-early-data"); } }
     Endpoint &V = vclient ? p.c : p.s, &P = vclient ? p.s : p.c;
     Mon mon; mon.V = &V; mon.desc = desc; int victim_pad = 0;
-    // TLS 1.3 record padding on the victim (matrixSslSetTls13BlockPadding): its own alerts are padded too, up to several kB
-    if (ver == TLS13 && r2 % 3 == 0) { static const int PB[] = { 64, 512, 1024, 4096, 16000 }; int pb = PB[(r2 / 3) % 5]; V.sel(); if (matrixSslSetTls13BlockPadding(V.ssl, pb) >= 0) { victim_pad = pb; c.count(fmt("victim-tls13-pad-block:%d", pb)); mon.desc += fmt(" victim-pad-block=%d", pb); } }
+    // TLS 1.3 record padding on the victim (matrixSslSetTls13BlockPadding): its own alerts are padded too, up to several kB.
+    // Only for events after completion, switched on once the handshake is done (as an application that pads its data would).
+    auto enable_victim_padding = [&]() {
+    if (ver == TLS13 && r2 % 3 == 0) { static const int PB[] = { 64, 512, 1024, 4096, 16000 }; int pb = PB[(r2 / 3) % 5]; V.sel(); if (matrixSslSetTls13BlockPadding(V.ssl, pb) >= 0) { victim_pad = pb; c.count(fmt("victim-tls13-pad-block:%d", pb)); mon.desc += fmt(" victim-pad-block=%d", pb); } } };
     const size_t HDR = dt ? 13 : 5;
 
     std::vector<Bytes> delivered_units; // legit units V has consumed
@@ -109,7 +111,7 @@ static void prop(Tape &t, Ctx &c) {
                 bool ok = r.type == 21 || (ver == TLS13 && r.type == 23 && r.len <= 64 + (size_t) victim_pad);
                 VF_CHECK(ok, "non-alert-output-after-death", "record type %u len %zu emitted after death (%s); %s", r.type, r.len, mon.why.c_str(), desc.c_str());
             }
-            VF_CHECK(mon.out_bytes_after <= 200, "too-much-output-after-death", "%zu bytes emitted after death (%s); %s", mon.out_bytes_after, mon.why.c_str(), desc.c_str());
+            VF_CHECK(mon.out_bytes_after <= 200 + 2 * (size_t) victim_pad, "too-much-output-after-death", "%zu bytes emitted after death (%s); %s", mon.out_bytes_after, mon.why.c_str(), desc.c_str());
         }
         if (dt) { while (!V.dgram_out.empty()) { Bytes x = V.dgram_out.front(); V.dgram_out.pop_front(); if (P.ssl && !P.failed) P.feed_dgram(x); } }
         else if (!V.wire_out.empty()) { Bytes x = V.take_wire(); if (P.ssl && !P.failed) P.feed(x); }
@@ -168,6 +170,7 @@ static void prop(Tape &t, Ctx &c) {
     }
     if (!event_done && !mon.dead) {
         if (!(V.hs_complete() && P.hs_complete())) { c.count("handshake-did-not-complete-without-event"); VF_FAIL("harness-handshake-failed", "no event fired but handshake incomplete; %s", desc.c_str()); }
+        enable_victim_padding();
         // established: pre-queue legit traffic so that valid continuations exist
         for (int i = 0; i < 3; i++) P.send(amsg(10 + i, 20 + i));
         take_from_peer();
